@@ -259,6 +259,22 @@ func c18CheckSession(a *ChildArgs, s *c18Session, phase string, mirror bool) *ls
 		a.Rec.Viol("C18/"+phase+"/server-died/"+culprit+"/"+panicClass(res.Panic), "for any sequence of framed messages the server keeps running", "Server.Run panicked: "+trunc(res.Panic, 200), wit)
 		return res
 	}
+	if res.Deadlock != "" {
+		culprit := "?"
+		for k := 1; k <= len(s.steps); k++ {
+			if r2 := lspRun(s.input(k)); r2.Deadlock != "" {
+				culprit = s.steps[k-1].Kind + ":" + s.steps[k-1].Label
+				wit["blocking_prefix_len"] = k
+				break
+			}
+		}
+		a.Rec.Viol("C18/"+phase+"/deadlock/"+culprit, "the server keeps running and answers each request", "the server's goroutine is parked on a lock nobody can release:\n"+trunc(res.Deadlock, 900), wit)
+		return res
+	}
+	if res.Stalled {
+		a.Rec.Inconclusive("C18/"+phase+"/stalled", "a session did not return within the watchdog and is not parked on a lock")
+		return res
+	}
 	if !res.Returned {
 		a.Rec.Viol("C18/"+phase+"/run-did-not-return", "the server keeps running", "Run did not return at EOF", wit)
 		return res
